@@ -69,7 +69,7 @@ def dense_of(x, ref=None, apply_phases=True):
                 f"sector {sector}: block shape {blk.shape}, tables say {want}",
             )
         sgn = ph.get(sector, 1)
-        out[tuple(sl)] = blk if sgn == 1 else -blk
+        out[tuple(sl)] = blk if (sgn == 1 or blk.dtype == np.bool_) else -blk
     return out
 
 
